@@ -156,6 +156,143 @@ def with_oracle(chk, rng, n):
                      "hy.eval(hy.read_many(src), env) vs exec of the python_reference with the harness's cm/log")
 
 
+# ---------------------------------------------------------------- except-variables: differential against Python
+# The exception variable is local to its handler (the property): the reference renders it under a private name,
+# the Hy program under a name that may shadow an outer variable.
+
+class _TGen:
+    def __init__(self, rng):
+        self.rng, self.k, self.ids = rng, 0, 0
+
+    def fk(self):
+        self.k += 1
+        return self.k
+
+    def body(self, d, exc, avoid, lo=0, hi=3):
+        """exc: id of the innermost bound exception variable (or None); avoid: outer names shadowed here"""
+        out = []
+        outer = [v for v in ("x0", "x1") if v not in avoid]
+        for _ in range(self.rng.randrange(lo, hi + 1)):
+            r = self.rng.random()
+            if r < 0.3:
+                out.append(("log", self.fk(), self.rng.choice([0, 1, 7])))
+            elif r < 0.42:
+                out.append(("raise", self.rng.randrange(1, 4)))
+            elif r < 0.57 and outer:
+                out.append(("rd", self.fk(), self.rng.choice(outer)))
+            elif r < 0.7 and outer:
+                out.append(("wr", self.rng.choice(outer), self.rng.choice([2, 5, 9])))
+            elif r < 0.82 and exc is not None:
+                out.append(("exc", self.fk(), exc))
+            elif d > 0:
+                out.append(self.tr(d - 1, exc, avoid))
+            else:
+                out.append(("log", self.fk(), 3))
+        return out
+
+    def tr(self, d, exc=None, avoid=frozenset()):
+        hs = []
+        for _ in range(self.rng.choice([1, 1, 2, 3])):
+            cls = self.rng.randrange(1, 4)
+            if self.rng.random() < 0.65:
+                self.ids += 1
+                eid = self.ids
+                name = self.rng.choice(["x0", "x1", "x0", "x1", "e"])
+                hs.append((cls, eid, name, self.body(d, (eid, name), avoid | {name})))
+            else:
+                hs.append((cls, None, None, self.body(d, exc, avoid)))
+        orelse = self.body(d, exc, avoid, 0, 2) if self.rng.random() < 0.3 else None
+        final = self.body(d, exc, avoid, 0, 2) if self.rng.random() < 0.4 else None
+        return ("try", self.body(d, exc, avoid), hs, orelse, final)
+
+
+def t_hy(f):
+    if f[0] == "log":
+        return "(log %d %d)" % (f[1], f[2])
+    if f[0] == "raise":
+        return "(raise (E%d))" % f[1]
+    if f[0] == "rd":
+        return "(log %d %s)" % (f[1], f[2])
+    if f[0] == "wr":
+        return "(setv %s %d)" % (f[1], f[2])
+    if f[0] == "exc":
+        return "(log %d (. (type %s) __name__))" % (f[1], f[2][1])
+    s = "(try" + "".join(" " + t_hy(x) for x in f[1])
+    for cls, eid, name, b in f[2]:
+        s += " (except [%sE%d]%s)" % ((name + " ") if eid else "", cls, "".join(" " + t_hy(x) for x in b))
+    if f[3] is not None:
+        s += " (else%s)" % "".join(" " + t_hy(x) for x in f[3])
+    if f[4] is not None:
+        s += " (finally%s)" % "".join(" " + t_hy(x) for x in f[4])
+    return s + ")"
+
+
+def t_block(forms, ind, target):
+    pad = "    " * ind
+    if not forms:
+        return "%s%s\n" % (pad, (target + " = None") if target else "pass")
+    return "".join(t_py(x, ind, target if i == len(forms) - 1 else None) for i, x in enumerate(forms))
+
+
+def t_py(f, ind, target):
+    pad = "    " * ind
+    asg = (target + " = ") if target else ""
+    if f[0] == "log":
+        return "%s%slog(%d, %d)\n" % (pad, asg, f[1], f[2])
+    if f[0] == "raise":
+        return "%sraise E%d()\n" % (pad, f[1])
+    if f[0] == "rd":
+        return "%s%slog(%d, %s)\n" % (pad, asg, f[1], f[2])
+    if f[0] == "wr":
+        return "%s%s = %d\n%s" % (pad, f[1], f[2], ("%s%s = None\n" % (pad, target)) if target else "")
+    if f[0] == "exc":
+        return "%s%slog(%d, type(_e%d).__name__)\n" % (pad, asg, f[1], f[2][0])
+    t_py.n += 1
+    tmp = "_t%d" % t_py.n
+    s = "%s%s = None\n%stry:\n" % (pad, tmp, pad)
+    has_else = bool(f[3])
+    s += t_block(f[1], ind + 1, None if has_else else tmp)
+    for cls, eid, name, b in f[2]:
+        s += "%sexcept E%d%s:\n" % (pad, cls, (" as _e%d" % eid) if eid else "")
+        s += t_block(b, ind + 1, tmp)
+    if has_else:
+        s += "%selse:\n" % pad + t_block(f[3], ind + 1, tmp)
+    if f[4] is not None:
+        s += "%sfinally:\n" % pad + t_block(f[4], ind + 1, None)
+    if target:
+        s += "%s%s = %s\n" % (pad, target, tmp)
+    return s
+
+
+t_py.n = 0
+
+
+def exceptvar_oracle(chk, rng, n):
+    hy = vlib.use_repo_in_process()
+    g = _TGen(rng)
+    for i in range(n):
+        g.k = 0
+        f = g.tr(rng.randrange(0, 3))
+        src = "(setv _result " + t_hy(f) + ")"
+        t_py.n = 0
+        pysrc = t_py(f, 0, "_result")
+
+        def run_hy(env):
+            hy.eval(hy.read_many(src), env)
+            return env.get("_result")
+
+        def run_py(env):
+            exec(compile(pysrc, "<ref>", "exec"), env)
+            return env.get("_result")
+        a = w_run(run_hy)
+        b = w_run(run_py)
+        chk.count("exceptvar:" + a[0][0])
+        chk.case("T:" + src, nontrivial=len(src) > 50, sample={"try": src, "result": repr(a)} if i % 300 == 5 else None)
+        if a != b:
+            chk.fail("except-variable-differs", {"program": src, "python_reference": pysrc}, repr(a), repr(b),
+                     "hy.eval(hy.read_many(src), env) vs exec of the python_reference (exception variables under private names)")
+
+
 def run(chk):
     chk.trusted = cc.TRUSTED_COMPILER
     chk.assumptions = ["handler types are exception class names; except-variables and `with` are outside the Coq model "
@@ -194,6 +331,9 @@ def run(chk):
     chk.rule = ("try forms (depth 2-3 nestings with handlers of one/many/all types, else, finally) in which every effect point "
                 "is made to raise in turn (thorough: each of 5 classes), plus pairs of raising points, plus random programs "
                 "with try/while/raise; and `with` forms (1-2 managers with scripted enter/exit: return, raise, suppress; "
-                "nested) run against the equivalent Python with-statement; non-trivial = distinct program of size >= 4")
+                "nested) run against the equivalent Python with-statement; try forms whose handlers bind exception variables "
+                "under names that may shadow outer variables, sibling handlers reading/writing the outer ones, run against "
+                "a Python rendering with private exception names; non-trivial = distinct program of size >= 4")
     cc.differential(chk, progs)
     with_oracle(chk, rng, 3000 if thorough else 400)
+    exceptvar_oracle(chk, rng, 12000 if thorough else 2500)
